@@ -368,6 +368,7 @@ func specExtLen(n int) int {
 
 //@ func Writer.flushFragment
 //@   props C06 C13 C16
+//@   locals payload:[]byte header:ws.Header ext:SendExtension offset:int skip:int buf:bytesWriter err:error
 //@   call ws.WriteHeader inline
 //@   call bytesWriter.Write inline
 //@   call ws.HeaderSize inline
@@ -445,6 +446,7 @@ func ufSendRsv(x SendExtension, op ws.OpCode, fin bool, length int64, rsv byte) 
 
 //@ func Writer.WriteThrough
 //@   props C06 C13 C16 C17
+//@   locals frame:ws.Frame x:SendExtension payload:[]byte
 //@   requires [ready] invWriter(w) && w.dest != nil && len(w.extensions) <= 1 && (len(w.extensions) == 1 ==> w.extensions[0] != nil) && len(p) <= 1<<47
 //@   cases side: w.state&ws.StateClientSide != 0 | !(w.state&ws.StateClientSide != 0)
 //@   cases len: int64(len(p)) <= 125 && int64(len(p)) <= 65535 | !(int64(len(p)) <= 125) && int64(len(p)) <= 65535 | !(int64(len(p)) <= 125) && !(int64(len(p)) <= 65535)
@@ -466,6 +468,7 @@ func ufSendRsv(x SendExtension, op ws.OpCode, fin bool, length int64, rsv byte) 
 
 //@ func Writer.Grow
 //@   props C06
+//@   locals size:int prevOffset:int nextOffset:int buffered:int cap:int p:[]byte
 //@   requires [inv]  invWriter(w) && 0 <= n && n <= 1<<41 && len(w.raw) <= 1<<43
 //@   ensures  [inv]  invWriter(w)
 //@   ensures  [room] len(w.buf)-w.n >= n
@@ -478,6 +481,7 @@ func ufSendRsv(x SendExtension, op ws.OpCode, fin bool, length int64, rsv byte) 
 
 //@ func Writer.Write
 //@   props C06 C16 C17
+//@   locals nn:int
 //@   requires [ready] writerReady(w) && len(p) <= 1<<40 && len(w.raw) <= 1<<40 && notPartOf(p, w) && !sameBase(p, w.raw)
 //@   call Writer.Available inline
 //@   call Writer.Buffered inline
@@ -704,6 +708,7 @@ func utf8FoldStep(s int, b byte) int { return specUTF8Step(s, b) }
 
 //@ func UTF8Reader.Read
 //@   props C07 C04 C15 C16
+//@   locals accepted:int s:uint32 c:uint32 i:int
 //@   requires [src]   u.Source != nil && streamOK(u.Source) && validUTF8State(u.state) && u.state != 12 && notPartOf(p, u) && inErr(u.Source) != ErrInvalidUTF8
 //@   ensures  [n]     0 <= n && n <= len(p)
 //@   ensures  [ok]    err != ErrInvalidUTF8 ==> absUTF8(u.state) == utf8Fold(absUTF8(old(u.state)), p, n) && forall(0, n+1, func(j int) bool { return utf8Fold(absUTF8(old(u.state)), p, j) != 8 })
@@ -825,6 +830,7 @@ func sameHdrButRsv(a, b ws.Header) bool {
 
 //@ func Reader.NextFrame
 //@   props C04 C05 C07 C13 C15 C16
+//@   locals n:int64 frame:io.Reader x:RecvExtension cb:FrameHandlerFunc cb:FrameHandlerFunc
 //@   call Reader.fragmented inline
 //@   invoke callback:wsutil.FrameHandlerFunc assigns (&r.raw).N, r.cr.pos, instream(r.Source)
 //@   invoke callback:wsutil.FrameHandlerFunc ensures [consumed] r.raw.N >= 0 && r.raw.N <= old(r.raw.N) && inPos(r.Source) == old(inPos(r.Source))+int(old(r.raw.N)-r.raw.N) && streamOK(r.Source)
@@ -1064,6 +1070,7 @@ func ufIsCtlHandler(f FrameHandlerFunc, w io.Writer, s ws.State) bool { return t
 // contracts); that it drains the frame it is given is assumed.
 //@ func readData
 //@   props C08 C04 C05 C07 C15
+//@   locals controlHandler:FrameHandlerFunc rd:Reader hdr:ws.Header err:error err:error err:error bts:[]byte
 //@   call ReadAll havoc
 //@   callsite Reader.NextFrame requires [wired] ufIsCtlHandler(rd.OnIntermediate, rw, s) && rd.Source == io.Reader(rw) && rd.State&^ws.StateFragmented == s&^ws.StateFragmented && rd.CheckUTF8 && !rd.SkipHeaderCheck
 //@   invoke callback:wsutil.FrameHandlerFunc requires [handler] ufIsCtlHandler(c_self, rw, s) && c_src == io.Reader(&rd)
@@ -1092,6 +1099,7 @@ func ufIsCtlHandler(f FrameHandlerFunc, w io.Writer, s ws.State) bool { return t
 // fragments; a clean end of src is not an error and leaves the message open (dirty).
 //@ func Writer.ReadFrom
 //@   props C06 C16
+//@   locals nn:int nr:int
 //@   requires [ready] writerReady(w) && src != nil && streamOK(src) && len(w.raw) <= 1<<40
 //@   ensures  [count] n == int64(inPos(src)-old(inPos(src))) && n >= 0
 //@   ensures  [eof]   err == nil ==> w.dirty && ((inPos(src) == inEnd(src) && inErr(src) == io.EOF) || w.err == io.EOF)
